@@ -301,3 +301,119 @@ def enc_value(spec):
     return fv_apply(lambda e: e.di(), spec)
 
 
+
+
+# --------------------------------------------------------------------------------------------
+# structured strings of the specification
+
+
+def defined_guard(m, key, nd):
+    """z3 Boolean: metric `key` is present in map m with a value other than Not Defined"""
+    from pyvc.sym import bool_of_node
+
+    info = m.info[key]
+    p, bs, vnode, pnode = info
+    n = fv_apply(lambda pr, x: bool(pr) and x != nd, pnode, vnode)
+    if isinstance(n, SBool):
+        return n.z
+    return z3.BoolVal(bool(n))
+
+
+def field_fv(key, value):
+    """finite choice of 'K:v' strings"""
+    return fv_apply(lambda x: "%s:%s" % (key, x), value)
+
+
+def canon_string(prefix, m, order, nd):
+    """prefix + '/'.join('K:v' for the metrics of `order` defined in m)"""
+    from pyvc import strings as S
+
+    items = []
+    for k in order:
+        p, bs, vnode, pnode = m.info[k]
+        items.append((defined_guard(m, k, nd), field_fv(k, vnode)))
+    return S.concat(prefix, S.SCat([S.JoinPiece("/", items)]))
+
+
+def strings_equal(a, b):
+    """z3 Boolean: two (structured / finite-choice / concrete) strings are equal"""
+    from pyvc import strings as S
+
+    if isinstance(a, S.SCat) or isinstance(b, S.SCat):
+        z = S.structural_eq(a, b, eq_z3)
+        if z is not None:
+            return z
+    return eq_z3(a, b)
+
+
+# --------------------------------------------------------------------------------------------
+# JSON documents with conditionally present keys
+
+
+class Unset(object):
+    pass
+
+
+def json_doc_obligations(ctx, result, spec_items, sort, interp_unbound):
+    """
+    result: the dict returned by as_json (concrete keys; values concrete / finite choice whose
+    UNBOUND leaf means 'key absent' / abstract string).
+    spec_items: [(key, presence z3 Boolean, value)] in the specification's order.
+    Emits: same key set, per key same presence and same value, ascending key order when sorted.
+    """
+    from pyvc.interp import UNBOUND
+    from pyvc.sym import fv_guard_of
+
+    if not isinstance(result, dict):
+        ctx.fail("post:type", "as_json() does not return a dict")
+        return
+    keys = list(result.keys())
+    want_keys = [k for k, _, _ in spec_items]
+    extra = sorted(set(keys) - set(want_keys))
+    ctx.prove("post:no-extra-fields", not extra,
+              "the document has no field outside the specified ones (extra: %s)" % extra[:6])
+    if sort:
+        ctx.prove("post:sorted", keys == sorted(keys), "sort=True yields ascending key order")
+        import collections
+
+        ctx.prove("post:sorted-type", isinstance(result, collections.OrderedDict), "sort=True returns an OrderedDict")
+    by = {k: (p, v) for k, p, v in spec_items}
+    group_presence = {}
+    for k in want_keys:
+        p, want = by[k]
+        got = result.get(k, UNBOUND)
+        if isinstance(got, FV) and any(x is UNBOUND for x in got.values):
+            present = z3.Not(fv_guard_of(got, lambda x: x is UNBOUND))
+        else:
+            present = z3.BoolVal(got is not UNBOUND)
+        if isinstance(p, tuple):
+            # ("atleast", lower bound, group): present whenever the bound holds; the fields of a
+            # group are present or absent together
+            _, low, grp = p
+            ctx.prove("post:present[%s]" % k, z3.Implies(low, present),
+                      "field %s is present whenever its group has a defined metric (or minimal is off)" % k)
+            if grp in group_presence:
+                ctx.prove("post:group-together[%s]" % k, present == group_presence[grp],
+                          "the fields of group %s are kept or omitted together" % grp)
+            else:
+                group_presence[grp] = present
+            p = present
+        else:
+            ctx.prove("post:present[%s]" % k, present == p, "field %s is present exactly when specified" % k)
+        st = ctx.st
+        # value equality under presence
+        if isinstance(want, (SStr,)) or isinstance(got, SStr):
+            goal = eq_z3(got, want) if not isinstance(got, FV) else z3.BoolVal(False)
+        else:
+            def same(a, b):
+                if a is UNBOUND:
+                    return True
+                if isinstance(b, Fraction):
+                    import struct
+
+                    return isinstance(a, float) and struct.pack(">d", a) == struct.pack(">d", b.numerator / b.denominator)
+                return type(a) is type(b) and a == b
+
+            r = fv_apply(same, got, want)
+            goal = r.z if isinstance(r, SBool) else z3.BoolVal(bool(r))
+        ctx.prove("post:value[%s]" % k, z3.Implies(p, goal), "field %s has the specified value" % k)
